@@ -137,6 +137,9 @@ func c04Prop(t *testing.T, k *verifkit.Kit) func(c c04Case) error {
 			if iface == "eth0" {
 				return c.Sc.Cfg.LifeS
 			}
+			if strings.HasPrefix(iface, "pre") {
+				return 0 // not advertising
+			}
 			var n int
 			fmt.Sscanf(iface, "eth%d", &n)
 			return c.Sc.Extra[n-1].LifeS
@@ -278,6 +281,10 @@ func c04Gen(t *rapid.T) c04Case {
 		x.MinNS = 200 * s
 		x.LifeS = rapid.SampledFrom([]int64{0, 1800, 600}).Draw(t, "xlife")
 		sc.Extra = append(sc.Extra, x)
+	}
+	// the configuration does not have to start with the advertising interfaces
+	for i, n := 0, rapid.SampledFrom([]int{0, 0, 1, 2, 3}).Draw(t, "nbefore"); i < n; i++ {
+		sc.Before = append(sc.Before, rapid.SampledFrom([]string{"monitor", "idle"}).Draw(t, "before"))
 	}
 	c := c04Case{}
 	at := int64(0)
